@@ -1022,4 +1022,183 @@ theorem C04_frame_sbs_end_to_end (norm : String → String) (dr : Nat) (db db' :
     simp only [e1, e2]
 
 
+/-! ### frame for `ilis()`: the ILIs (existing and proposed) seen through a selection -/
+
+theorem presupStep_ilis (p : Nat) (b b1 : Db) (ss : Synset) (h : presupStep p b ss = .ok b1) :
+    ∃ rs, b1.ilis = b.ilis ++ rs ∧ ∀ r ∈ rs, r.rowid ∉ b.ilis.map (·.rowid) := by
+  unfold presupStep at h
+  repeat' (split at h)
+  all_goals (simp only [Except.ok.injEq] at h; subst h)
+  · exact ⟨[_], rfl, by intro r hr; simp only [List.mem_singleton] at hr; subst hr; exact nextId_not_mem _⟩
+  · exact ⟨[], by simp, by simp⟩
+  · exact ⟨[], by simp, by simp⟩
+
+theorem presupFold_ilis (p : Nat) : ∀ (l : List Synset) (b b' : Db), l.foldlM (presupStep p) b = .ok b' →
+    ∃ rs, b'.ilis = b.ilis ++ rs ∧ ∀ r ∈ rs, r.rowid ∉ b.ilis.map (·.rowid) := by
+  intro l b b' h
+  refine foldlM_ok_induct (presupStep p)
+    (fun _ b b' => ∃ rs, b'.ilis = b.ilis ++ rs ∧ ∀ r ∈ rs, r.rowid ∉ b.ilis.map (·.rowid)) ?_ ?_ l b b' h
+  · intro b; exact ⟨[], by simp, by simp⟩
+  · intro a t b b1 b' h1 _ ih
+    obtain ⟨r1, e1, f1⟩ := presupStep_ilis p b b1 a h1
+    obtain ⟨r2, e2, f2⟩ := ih
+    refine ⟨r1 ++ r2, by rw [e2, e1, List.append_assoc], ?_⟩
+    intro r hr
+    rcases List.mem_append.mp hr with hr | hr
+    · exact f1 r hr
+    · intro hmem
+      apply f2 r hr
+      rw [e1, List.map_append]
+      exact List.mem_append_left _ hmem
+
+theorem addLexicon_ilis_fresh {norm : String → String} {dr : Nat} {db db' : Db} {l : Lexicon}
+    (t : AddTrace norm dr db db' l) :
+    (∃ extra, db'.ilis = db.ilis ++ extra ∧ ∀ r ∈ extra, r.rowid ∉ db.ilis.map (·.rowid)) ∧
+    db'.ilistatuses = db.ilistatuses := by
+  let c : Ctx := ⟨t.lexid, t.extid, externalIds l⟩
+  let π : Db → List RIli × List (Nat × String) := fun b => (b.ilis, b.ilistatuses)
+  have k1 : π t.d1 = π db := by
+    have h := t.hlex
+    unfold insertLexicon at h
+    simp only [bind, Except.bind, pure, Except.pure] at h
+    split at h
+    · simp [throw, throwThe, MonadExcept.throw] at h
+    · split at h
+      · split at h
+        · simp at h
+        · simp only [Except.ok.injEq, Prod.mk.injEq] at h
+          obtain ⟨h, _, _⟩ := h; rw [← h]; rfl
+      · simp only [Except.ok.injEq, Prod.mk.injEq] at h
+        obtain ⟨h, _, _⟩ := h; rw [← h]; rfl
+  have k3 : π t.d3 = π t.d2 := keepsGF_insertEntries π l c (by keepsG_step entryStep) _ _ t.hent
+  have k4 : π t.d4 = π t.d3 := keepsGF_insertForms π (fun _ _ => rfl) norm l c _ _ t.hform
+  have k5 : π t.d5 = π t.d4 := keepsGF_insertPronsTags π l c (fun _ _ _ => by keepsG_step pronStep)
+    (fun _ _ _ => by keepsG_step tagStep) _ _ t.hpt
+  have k6 : π t.d6 = π t.d5 := keepsGF_insertSenses π l c dr (fun _ => by keepsG_step senseStep)
+    (by keepsG_step adjStep) (fun _ => by keepsG_step countStep) _ _ t.hsen
+  have k7 : π t.d7 = π t.d6 := keepsGF_insertSbs π t.sbs c (by keepsG_step sbStep) (fun _ => by keepsG_step sbSenseStep) _ _ t.hsb
+  have k8 : π t.d8 = π t.d7 := keepsGF_insertRelations π l c (fun _ => by keepsG_step synRelStep)
+    (by keepsG_step senseRelStep) (by keepsG_step senseSynRelStep) _ _ t.hrel
+  have k9 : π db' = π t.d8 := keepsGF_insertDefsExamples π l c (fun _ => by keepsG_step defStep)
+    (fun _ => by keepsG_step senseExampleStep) (fun _ => by keepsG_step synsetExampleStep) _ _ t.hdx
+  have kk : π db' = π t.d2 := by rw [k9, k8, k7, k6, k5, k4, k3]
+  -- the synsets pass
+  obtain ⟨presup, b1, b2, hp1, hp2, hp3⟩ := C05.insertSynsets_split l c _ _ t.hsyn
+  obtain ⟨extra, he, hf⟩ := presupFold_ilis presup _ _ _ hp1
+  have s1 : b1.ilistatuses = t.d1.ilistatuses :=
+    fold_keepsG (fun b => b.ilistatuses) (presupStep presup) (by keepsG_step presupStep) _ _ _ hp1
+  have s2 : π b2 = π b1 := fold_keepsG π (synsetStep c) (by keepsG_step synsetStep) _ _ _ hp2
+  have s3 : π t.d2 = π b2 := fold_keepsG π (piliStep c) (by keepsG_step piliStep) _ _ _ hp3
+  have hI : db'.ilis = b1.ilis := by
+    have := congrArg Prod.fst (kk.trans (s3.trans s2)); exact this
+  have hS : db'.ilistatuses = b1.ilistatuses := by
+    have := congrArg Prod.snd (kk.trans (s3.trans s2)); exact this
+  have d1i : t.d1.ilis = db.ilis := congrArg Prod.fst k1
+  have d1s : t.d1.ilistatuses = db.ilistatuses := congrArg Prod.snd k1
+  refine ⟨⟨extra, by rw [hI, he, d1i], ?_⟩, by rw [hS, s1, d1s]⟩
+  intro r hr
+  have := hf r hr
+  rw [d1i] at this
+  exact this
+
+theorem ite_branch_congr {α} (c : Prop) [Decidable c] {a a' b b' : α} (h1 : a = a') (h2 : b = b') :
+    (if c then a else b) = (if c then a' else b') := by rw [h1, h2]
+
+theorem filterMap_frame {α β} (f' f : α → Option β) (old rows : List α) (h1 : ∀ r ∈ rows, f' r = none)
+    (h2 : ∀ o ∈ old, f' o = f o) : (old ++ rows).filterMap f' = old.filterMap f := by
+  rw [List.filterMap_append]
+  have : rows.filterMap f' = [] := by
+    rw [List.filterMap_eq_nil_iff]; exact h1
+  rw [this, List.append_nil]
+  exact filterMap_congr_mem _ _ _ h2
+
+/-- **C04, frame for `ilis()`, end to end**: adding any lexicon outside a non-empty selection `S`
+leaves the ILIs seen through `S` — existing ones with their status and definition, and proposed
+ones — unchanged, whatever id / status filter is given; provided stored synsets have unique rowids,
+point at stored lexicons and their ILI links at stored ILIs -/
+theorem C04_frame_ilis_end_to_end (norm : String → String) (dr : Nat) (db db' : Db) (l : Doc.Lexicon)
+    (h : addLexicon norm dr db l = .ok db') (S : List Nat) (hS : S ≠ [])
+    (hout : nextId (db.lexicons.map (·.rowid)) ∉ S)
+    (hlink : ∀ o ∈ db.synsets, ∀ k, o.ili = some k → k ∈ db.ilis.map (·.rowid))
+    (hfkY : ∀ o ∈ db.synsets, o.lex ∈ db.lexicons.map (·.rowid))
+    (hnY : (db.synsets.map (·.rowid)).Nodup)
+    (id status : Option String) :
+    findIlis db' id status S = findIlis db id status S := by
+  obtain ⟨t⟩ := addLexicon_split norm dr db db' l h
+  have hlexid : t.lexid = nextId (db.lexicons.map (·.rowid)) := (insertLexicon_frame _ _ _ _ _ t.hlex).2.2.1
+  obtain ⟨⟨extra, hI, hfresh⟩, hSt⟩ := addLexicon_ilis_fresh t
+  obtain ⟨yrows, _, hY, hylex, _⟩ := C01.addLexicon_synset_tables norm dr db db' l h
+  obtain ⟨⟨prows, hP, hPn⟩, _, _, _⟩ := C05.addLexicon_misc_tables t
+  have hSe : S.isEmpty = false := by simpa [List.isEmpty_iff] using hS
+  have hnew : ∀ r ∈ yrows, S.contains r.lex = false := by
+    intro r hr
+    rw [hylex r hr]
+    cases hb : S.contains (nextId (db.lexicons.map (·.rowid))) with
+    | false => rfl
+    | true => exact absurd (by simpa using hb) hout
+  have hnY' : (db'.synsets.map (·.rowid)).Nodup := by
+    obtain ⟨_, hY2, _⟩ := addLexicon_sense_table t
+    obtain ⟨_, g2, _⟩ := insertLexicon_frame2 _ _ _ _ _ t.hlex
+    rw [hY2]
+    apply insertSynsets_nodupY _ _ _ _ t.hsyn
+    rw [g2]; exact hnY
+  have holdlex : ∀ o ∈ db.synsets, o.lex ≠ t.lexid := by
+    intro o ho e
+    have := hfkY o ho
+    rw [e, hlexid] at this
+    exact nextId_not_mem _ this
+  -- A / B: the synsets carrying an ILI
+  have hA : ∀ i : RIli, db'.synsets.any (fun ss => ss.ili == some i.rowid && S.contains ss.lex) =
+      db.synsets.any (fun ss => ss.ili == some i.rowid && S.contains ss.lex) := by
+    intro i
+    rw [hY]
+    apply any_append_false
+    intro r hr
+    have : r.lex ∉ S := by rw [hylex r hr]; exact hout
+    simp [this]
+  have hB : ∀ i ∈ extra, db.synsets.any (fun ss => ss.ili == some i.rowid && S.contains ss.lex) = false := by
+    intro i hi
+    rw [List.any_eq_false]
+    intro ss hss
+    have : ss.ili ≠ some i.rowid := fun e => hfresh i hi (hlink ss hss i.rowid e)
+    simp [this]
+  -- C / D: the synsets carrying a proposed ILI
+  have hC : ∀ p : RPIli, db'.synsets.any (fun ss => ss.rowid == p.synset && S.contains ss.lex) =
+      db.synsets.any (fun ss => ss.rowid == p.synset && S.contains ss.lex) := by
+    intro p
+    rw [hY]
+    apply any_append_false
+    intro r hr
+    have : r.lex ∉ S := by rw [hylex r hr]; exact hout
+    simp [this]
+  have hD : ∀ p ∈ prows, db.synsets.any (fun ss => ss.rowid == p.synset && S.contains ss.lex) = false := by
+    intro p hp
+    rw [List.any_eq_false]
+    intro ss hss
+    obtain ⟨y, hy, hyl, hyr⟩ := hPn p hp
+    have : ss.rowid ≠ p.synset := by
+      intro e
+      have : ss = y := mem_eq_of_rowid _ hnY' ss (by rw [hY]; exact List.mem_append_left _ hss) y hy (by rw [e, hyr])
+      exact holdlex ss hss (by rw [this]; exact hyl)
+    simp [this]
+  unfold findIlis
+  simp only [hSe, Bool.false_or, hSt, hA, hC]
+  rw [hI, hP]
+  congr 1
+  · apply ite_branch_congr
+    · rfl
+    · apply filterMap_frame
+      · intro r hr
+        simp only [hB r hr, Bool.and_false]
+        split <;> simp
+      · intro o _; rfl
+  · apply ite_branch_congr
+    · apply filterMap_frame
+      · intro r hr
+        simp only [hD r hr]
+        rfl
+      · intro o _; rfl
+    · rfl
+
+
 end WnVerif.Props.C04
